@@ -42,7 +42,8 @@ CLAIMED = {
              "known finding polytri-absolute-thresholds (valid small meshes raise)."),
     "C05": dict(
         text="Theorems: the normalised plane test has the sign of the exact side value and is membership in the face half-spaces (convex); the norm "
-             "tests of Sphere/Ellipsoid are the quadratic membership tests; the 3-D winding answer is independent of triangle order (partial: "
+             "tests of Sphere/Ellipsoid are the quadratic membership tests; the 3-D winding rule (tie-breaking included) is independent of triangle order and of each triangle's starting vertex, "
+             "and reversing all orientations negates the chain sum (partial: "
              "equality with membership for arbitrary closed meshes is not proved); Paramcoq transfer of the executable models. Tie: the faithful "
              "winding-number model and the independent exact specifications (half-spaces, signed tetrahedron covering number with generic apex, "
              "exact squared distance to the core for spheropolyhedra) are evaluated in exact rationals on the same shapes/points as the implementation, "
@@ -65,7 +66,7 @@ CLAIMED = {
     "C10": dict(
         text="Translator tie: the scalar closed forms of Circle/Ellipse/Sphere/Ellipsoid are regenerated from /repo into Gen/Scalars.v on every run and the "
              "theorems are re-checked against them: area and volume formulas equal the defining polar/spherical iterated Riemann integrals (Coquelicot), "
-             "central inertia entries, eccentricity and axis symmetry, iq <= 1; the off-centre planar moments are proved to be exactly the swapped "
+             "the ellipse perimeter 4aE(e^2) equals 4 x the arc-length integral of the quarter ellipse, central inertia entries, eccentricity and axis symmetry, iq <= 1; the off-centre planar moments are proved to be exactly the swapped "
              "parallel-axis model (refuted against the integrals of y^2, x^2 with a witness; partial for cx^2=cy^2; polar moment proved right). "
              "Correspondence: Q-model coefficients of pi vs implementation on log-grid/tie/near-tie axes in every ordering and off-origin centres; "
              "perimeter / ellipsoid area vs quadrature of the defining integrals, with Interval-certified enclosures of the arc-length integral for a sample.",
@@ -75,7 +76,8 @@ CLAIMED = {
     "C07": dict(
         text="Theorems: neighbour lists are exactly 'distinct faces sharing an edge' and the relation is symmetric (any face list); certificate soundness: a "
              "negative support number puts every other vertex strictly inside the face plane, the planarity number bounds every face vertex; index-level "
-             "closedness implies the closed-chain hypothesis. Partial: Euler's relation and correctness of the angular sort are not proved - instead the "
+             "closedness implies the closed-chain hypothesis; handshake count: for an edge-manifold face list of any size reversal pairs the directed edges i<j with "
+             "those i>j, so len(edges) = (sum of face sizes)/2. Partial: Euler's relation and correctness of the angular sort are not proved - instead the "
              "full certificate (planar faces, strict support => faces are the merged hull facets, counter-clockwise turns, edge-manifold, V-E+F=2) is "
              "evaluated exactly by the model on the implementation's faces for ConvexPolyhedron (2 orders), Polyhedron.sort_faces on scrambled/relabelled "
              "faces and merge_faces on randomly wound triangulations; neighbours, edges, num_edges, edge vectors/lengths, unit outward equations compared.",
@@ -100,7 +102,9 @@ CLAIMED = {
     "C14": dict(
         text="Theorems: for every real theta the Ellipse formula (regenerated from the source each run) puts centre + d(cos,sin) on the ellipse with d>0; "
              "Cramer's rule for ray/edge intersection (the point at distance cross(a,e)/cross(u,e) along u is a + s e); distance = |d u| for unit u; "
-             "directions depend on theta only modulo 2 pi. Partial: the polygon/spheropolygon sector selection is not modelled step by step - instead the "
+             "directions depend on theta only modulo 2 pi; for a convex region with ANY number of edges (half-planes with the centre inside) the radial distance "
+             "min c_i/(n_i.u) keeps the whole ray segment inside, lands on an edge line, is positive and exists; the rounded-corner hit u.v + sqrt(r^2-(u x v)^2) "
+             "lies on the corner circle and is the farthest such point. Partial: the polygon/spheropolygon sector selection is not modelled step by step - instead the "
              "implementation's output is judged against the definition: the exact (Coq model, rational) distance of centre + d u to the core polygon's "
              "boundary equals the rounding radius (0 for polygons), d>0, with the centre the exact C04 centroid; angles in [-4pi,4pi], vertex directions, "
              "multiples of pi/4, axis-aligned edges.",
